@@ -63,3 +63,5 @@ End C05.
 Print Assumptions C05_decode_gate.
 Print Assumptions C05_generic_gate.
 Print Assumptions C05_three_segments.
+Print Assumptions C05_header_rejects.
+Print Assumptions C05_lib_version.
